@@ -34,6 +34,11 @@ def active_derived(f: FuncInfo, e: ast.expr, depth: int = 0) -> bool:
         g = e.generators[0]
         if isinstance(g.target, ast.Name) and norm(e.elt) == g.target.id and active_derived(f, g.iter, depth + 1):
             return True
+        # [k for k in <anything> if k in <active>]
+        if isinstance(g.target, ast.Name) and norm(e.elt) == g.target.id and any(
+                isinstance(c, ast.Compare) and len(c.ops) == 1 and isinstance(c.ops[0], ast.In) and norm(c.left) == g.target.id and active_derived(f, c.comparators[0], depth + 1)
+                for c in g.ifs):
+            return True
     if isinstance(e, ast.Call) and call_name(e) in ("list", "sorted", "set", "tuple") and len(e.args) == 1 and depth < 4 and active_derived(f, e.args[0], depth + 1):
         return True
     if isinstance(e, ast.Name) and depth < 4:
@@ -201,29 +206,56 @@ def run(P: Program, R: Report, tier: str) -> None:
                     n += 1
                     key = c.args[1]
                     g = gated(P, a, m, c, key)
+                    if g is None and isinstance(key, ast.Name):
+                        # a key that comes out of a helper's result (tuple unpacking of a call / generator) is not followed
+                        bind = [lp for lp in ast.walk(m.node) if isinstance(lp, ast.For) and any(isinstance(x, ast.Name) and x.id == key.id for x in ast.walk(lp.target))]
+                        if bind and all(isinstance(lp.iter, ast.Call) and isinstance(lp.iter.func, ast.Attribute) and norm(lp.iter.func.value) == "self" for lp in bind):
+                            R.undecided("R10.3", m, c, f"{m.short}: write of `{norm(key)}` is gated by the active feature set",
+                                        f"`{norm(key)}` is produced by `{norm(bind[0].iter)[:50]}`: keys flowing through a helper's result are not followed")
+                            continue
                     R.check(g is not None, "R10.3", m, c, f"{m.short}: write of `{norm(key)}` is gated by the active feature set",
                             f"no membership test of `{norm(key)}` in the active features dominates this write (through {m.name} and its callers): a disabled feature keeps changing",
                             via="gating" if g is None else f"gating", path=None)
                     if g is not None:
                         R.obligations[-1].detail = g
     R.floor("R10.3", "attribute writes in annotators", n, 8)
-    # ---- R10.4
+    # ---- R10.4  (the constructor-side work may live in helpers of Tracks that receive the key list)
     en, dis = tracks.methods["enable_features"], tracks.methods["disable_features"]
-    src = norm(en.node)
-    R.check("activate_features(feature_keys)" in src and "self.features[key] =" in src, "R10.4", en, en.node,
-            "enable_features activates and registers every requested key", src[:100], via="syntax")
-    src = norm(dis.node)
-    R.check("deactivate_features(feature_keys)" in src and "del self.features[key]" in src, "R10.4", dis, dis.node,
-            "disable_features deactivates and unregisters every requested key", src[:100], via="syntax")
-    for f in (en, dis):
-        for lp in [x for x in ast.walk(f.node) if isinstance(x, ast.For)]:
-            R.check(norm(lp.iter) == f.params[1], "R10.4", f, lp, f"{f.short}: the registry loop runs over the requested keys", norm(lp.iter), via="dataflow")
+
+    def closure_of(f):
+        """(function, name of the requested-keys collection in it) for f and the Tracks helpers it hands the keys to"""
+        out = [(f, f.params[1])]
+        for c in ast.walk(f.node):
+            if isinstance(c, ast.Call) and isinstance(c.func, ast.Attribute) and norm(c.func.value) == "self":
+                h = P.lookup_method(tracks.qname, c.func.attr)
+                if h is None or h is f:
+                    continue
+                hp = [p_ for p_ in h.params if p_ != "self"]
+                for i, a_ in enumerate(c.args):
+                    if norm(a_) in (f.params[1], f"[{f.params[1]}]") and i < len(hp):
+                        out.append((h, hp[i]))
+        return out
+
+    for f, act, reg_forms, what in (
+        (en, "activate_features", ("self.features[key] =",), "enable_features activates and registers every requested key"),
+        (dis, "deactivate_features", ("del self.features[key]", "self.features.pop(key"), "disable_features deactivates and unregisters every requested key"),
+    ):
+        cl = closure_of(f)
+        src = " ".join(norm(g.node) for g, _ in cl)
+        acts = [c for g, kp in cl for c in ast.walk(g.node) if isinstance(c, ast.Call) and call_name(c) == act and c.args and norm(c.args[0]) == kp]
+        R.check(bool(acts) and any(x in src for x in reg_forms), "R10.4", f, f.node, what, src[:100], via="syntax")
+        for g, kp in cl:
+            for lp in [x for x in ast.walk(g.node) if isinstance(x, ast.For) and any(x_ in norm(lp_) for lp_ in [x] for x_ in reg_forms)]:
+                R.check(norm(lp.iter) == kp, "R10.4", g, lp, f"{g.short}: the registry loop runs over the requested keys", norm(lp.iter), via="dataflow")
     # ---- R10.5
     for a in P.annotators():
         comp = a.methods.get("compute")
         if comp is None:
             continue
         filt = [c for c in ast.walk(comp.node) if isinstance(c, ast.Call) and call_name(c) == "_filter_feature_keys"]
+        if not filt:
+            # the same filter written out: the keys handed on are a comprehension / list over the active set
+            filt = [s_ for s_ in ast.walk(comp.node) if isinstance(s_, ast.Assign) and active_derived(comp, s_.value)]
         R.check(bool(filt), "R10.5", comp, comp.node, f"{a.name}.compute filters the requested keys through the active set", "", via="syntax")
     base = P.class_named("GraphAnnotator").methods.get("_filter_feature_keys")
     if base is not None:
@@ -260,10 +292,30 @@ def flag_frame(P: Program, R: Report, rule: str) -> None:
     n = 0
     for c in classes:
         for mname, const in (("activate_features", True), ("deactivate_features", False)):
-            m = c.methods.get(mname)
-            if m is None:
+            m0 = c.methods.get(mname)
+            if m0 is None:
                 continue
-            kparam = m.params[1] if len(m.params) > 1 else "keys"
+            # the flag write may be delegated to a helper that receives the keys (and the flag)
+            todo = [(m0, m0.params[1] if len(m0.params) > 1 else "keys")]
+            for cc in ast.walk(m0.node):
+                if isinstance(cc, ast.Call) and isinstance(cc.func, ast.Attribute) and norm(cc.func.value) == "self":
+                    h = P.lookup_method(c.qname, cc.func.attr)
+                    hp = [p_ for p_ in h.params if p_ != "self"] if h is not None else []
+                    for i_, a_ in enumerate(cc.args):
+                        if h is not None and h is not m0 and norm(a_) == todo[0][1] and i_ < len(hp):
+                            todo.append((h, hp[i_]))
+            for m, kparam in todo:
+                n += _flag_writes(P, R, rule, m, kparam, const)
+    R.floor(rule, "flag writes in activate / deactivate", n, 2)
+
+
+def _flag_writes(P: Program, R: Report, rule: str, m, kparam: str, const: bool) -> int:
+    from ..resolve import Resolver
+
+    rs_ = Resolver(P, m)
+    n = 0
+    if True:
+        if True:
             # names that denote (a sub-collection of) the requested keys
             req = {kparam}
             for s in ast.walk(m.node):
@@ -278,8 +330,8 @@ def flag_frame(P: Program, R: Report, rule: str) -> None:
                 if isinstance(s, ast.Assign):
                     for t in s.targets:
                         # form A: item write
-                        if isinstance(t, ast.Subscript) and isinstance(t.value, ast.Attribute) and norm(t.value).startswith("self.") and isinstance(s.value, ast.Tuple) and len(s.value.elts) == 2:
-                            table = norm(t.value)
+                        if isinstance(t, ast.Subscript) and rs_.text(t.value).startswith("self.") and isinstance(s.value, ast.Tuple) and len(s.value.elts) == 2:
+                            table = rs_.text(t.value)
                             n += 1
                             k = norm(t.slice)
                             loops = [(fld, nd) for fld, nd in enclosing(m, s) if isinstance(nd, ast.For) and isinstance(nd.target, ast.Name) and nd.target.id == k]
@@ -322,4 +374,4 @@ def flag_frame(P: Program, R: Report, rule: str) -> None:
                                     R.ok(rule, m, s, f"{m.short}: rebuilt flag table keeps the other features' flags", via="expr-shape")
                                 else:
                                     R.undecided(rule, m, s, f"{m.short}: rebuilt flag table keeps the other features' flags", f"flag expression `{norm(flag)[:60]}` not recognised")
-    R.floor(rule, "flag writes in activate / deactivate", n, 2)
+    return n
